@@ -223,7 +223,10 @@ def run_execution(cfg, ch, acc, observer=None):
                 return problems, net, ep
             problems += monitor(cfg, net, ep, log_start, burst_nonces, called,
                                 outcome, exc, mask)
-            if problems or outcome != "return":
+            # a burst that ended with TimeoutError / FatalReturnCodeError does
+            # not end the life of the connection: the next burst on it is
+            # explored too (it must not inherit anything from the aborted one)
+            if problems:
                 break
     return problems, net, ep
 
@@ -371,6 +374,11 @@ def classify_alias(net, ep, nonce, rn, rseq, mask):
             seq_of[rn] == seq_of[nonce] == rseq and \
             first_send[rn] < first_send[nonce]:
         if rn in retired_at and retired_at[rn] < first_send[nonce]:
+            return "seq_alias_after_wrap"
+        if rn // 100 < nonce // 100:
+            # the earlier owner belonged to an earlier burst (nonces are
+            # 100 * (burst + 1) + i); that burst has ended - normally or by an
+            # exception - so all its commands are retired
             return "seq_alias_after_wrap"
         return "seq_assigned_while_previous_owner_outstanding"
     return "unrelated_reply"
